@@ -30,6 +30,7 @@ import sys
 import time
 import json
 import atexit
+import pickle
 import shutil
 import socket
 import logging
@@ -43,11 +44,19 @@ from harness.common import hx, exc_name  # noqa: F401
 
 PROPERTY = 'C11'
 LEAN_TARGETS = ['PxProofs.C11']
-THEOREMS = []
+THEOREMS = [
+    'Px.Intercept.C11_no_relay_on_bad_upstream', 'Px.Intercept.C11_no_relay_on_bad_upstream_log',
+    'Px.Intercept.C11_bad_upstream_closes', 'Px.Intercept.C11_verify_settings',
+    'Px.Intercept.C11_verify_settings_wrap', 'Px.Intercept.C11_verify_settings_log', 'Px.Intercept.C11_san',
+    'Px.Intercept.C11_ext_file_bytes', 'Px.Intercept.C11_optout_opaque', 'Px.Intercept.C11_chain_semantics',
+    'Px.Intercept.C11_chain_asks', 'Px.Intercept.C11_order', 'Px.Intercept.C11_inner_requests',
+    'Px.Intercept.C11_D16_general', 'Px.Intercept.C11_witness_D16', 'Px.Intercept.C11_witness_D16b',
+    'Px.Intercept.C11_property_partial',
+]
 NO_FORK = False
 logging.disable(logging.CRITICAL)
 
-IO_TIMEOUT = 8.0          # every peer-side socket operation
+IO_TIMEOUT = 40.0         # every peer-side socket operation (generous: the box may be heavily loaded)
 CA_SUBJECT = '/CN=px-verif-ca/O=px-verif'
 
 SITUATIONS = ('trusted', 'selfsigned', 'untrusted', 'wrongname', 'expired')
@@ -464,7 +473,11 @@ class Patches:
             ent = {'ev': 'openssl', 'argv': list(command), 'file': content, 'timeout': timeout, 'rc': None}
             REC.append(ent)
             w.openssl_calls += 1
-            r = orig_run(command, timeout)
+            try:
+                r = orig_run(command, timeout)
+            except subprocess.TimeoutExpired:
+                ent['rc'] = 'timeout'
+                raise
             ent['rc'] = bool(r)
             return r
         self._set(PKI, 'run_openssl_command', run_openssl_command)
@@ -503,9 +516,25 @@ class Patches:
             REC.append({'ev': 'result', 'val': 'ssl' if isinstance(r, ssl.SSLSocket) else repr(bool(r))})
             return r
         self._set(PS.HttpProxyPlugin, 'on_request_complete', on_request_complete)
+
+        # what the code logs at WARNING and above (with the exception it logs, if any): diagnostics only
+        class Capture(logging.Handler):
+            def emit(self, record):
+                exc = record.exc_info[1] if record.exc_info else None
+                w.logs.append('%s %s%s' % (record.levelname, str(record.getMessage())[:160],
+                                           (' <%s: %s>' % (type(exc).__name__, str(exc)[:120])) if exc else ''))
+        self.capture = Capture(level=logging.WARNING)
+        self.plog = logging.getLogger('proxy')
+        self.plog_state = (self.plog.propagate, self.plog.level)
+        self.plog.addHandler(self.capture)
+        self.plog.propagate = False
+        logging.disable(logging.INFO)
         return self
 
     def __exit__(self, *exc):
+        logging.disable(logging.CRITICAL)
+        self.plog.removeHandler(self.capture)
+        self.plog.propagate = self.plog_state[0]
         for obj, name, old in reversed(self.saved):
             if old is _MISSING:
                 delattr(obj, name)
@@ -554,6 +583,7 @@ class World:
         self.certdir = tempfile.mkdtemp(prefix='certs-', dir=self.p.dir)
         self.openssl_calls = 0
         self.origins = []
+        self.logs = []
         self.flags = None
 
     def make_flags(self):
@@ -621,13 +651,14 @@ def run_connect(w, case):
     c_peer, c_proxy = socket.socketpair()
     n_before = len(w.origins)
     calls_before = w.openssl_calls
+    logs_before = len(w.logs)
     handler = HttpProtocolHandler(HttpClientConnection(c_proxy, ('127.0.0.1', 50000)), flags=w.flags)
     handler.initialize()
     cl = Client(c_peer, connect_bytes(case), case['host'], w.p.ca_cert, inner_request(case), case.get('cuts', []),
                 case.get('client', 'verify'))
     cl.start()
     sel = selectors.DefaultSelector()
-    deadline = time.time() + 25
+    deadline = time.time() + 50
     ended = None
     idle = 0
     snapshot = None
@@ -701,7 +732,7 @@ def run_connect(w, case):
         except Exception as e:      # noqa: BLE001
             leaf = {'error': repr(e)}
     return {
-        'fs_before': fs_before, 'leaf': leaf,
+        'fs_before': fs_before, 'leaf': leaf, 'logs': w.logs[logs_before:], 'certdir': w.certdir,
         'rec': snapshot, 'post': post, 'ended': ended, 'state': state, 'hung': hung,
         'openssl_calls': w.openssl_calls - calls_before,
         'client': {'ack': cl.ack, 'handshake': cl.handshake, 'cert': cl.peer_cert, 'der': cl.peer_der,
@@ -721,6 +752,13 @@ def pem_to_der(path):
         return ssl.PEM_cert_to_DER_cert(f.read())
 
 
+def _timed_out(o):
+    vals = [o['client']['handshake'], o['client']['error']]
+    if o['origin'] is not None:
+        vals += [o['origin']['handshake'], o['origin']['error']]
+    return o['hung'] or o['ended'] == 'timeout' or any(v and 'TimeoutError' in str(v) for v in vals)
+
+
 _OBS_CACHE = {}
 
 
@@ -729,18 +767,36 @@ def observe(case):
     key = json.dumps(case, sort_keys=True)
     if key in _OBS_CACHE:
         return _OBS_CACHE[key]
-    w = World(case)
-    out = []
-    try:
-        w.make_flags()
-        with Patches(w):
-            for _ in range(1 + case.get('warm', 0)):
-                out.append(run_connect(w, case))
-    finally:
-        w.close()
+    # the oracle pass of ./check runs in other worker processes than the correspondence pass: share the run
+    disk = os.path.join(pki().dir, 'obs-' + hashlib.sha1(key.encode()).hexdigest() + '.pkl')
+    if os.path.isfile(disk):
+        try:
+            with open(disk, 'rb') as f:
+                _OBS_CACHE[key] = pickle.load(f)
+            return _OBS_CACHE[key]
+        except Exception:       # noqa: BLE001 — half-written by a concurrent worker: just run again
+            pass
+    for attempt in (0, 1):
+        w = World(case)
+        out = []
+        try:
+            w.make_flags()
+            with Patches(w):
+                for _ in range(1 + case.get('warm', 0)):
+                    out.append(run_connect(w, case))
+        finally:
+            w.close()
+        # a peer-side socket timeout on an overloaded box is not an observation about the proxy: one more try
+        # (a genuine hang shows up again and is then reported)
+        if not any(_timed_out(o) for o in out):
+            break
     if len(_OBS_CACHE) > 512:
         _OBS_CACHE.clear()
     _OBS_CACHE[key] = out
+    tmp = '%s.%d' % (disk, os.getpid())
+    with open(tmp, 'wb') as f:
+        pickle.dump(out, f)
+    os.replace(tmp, disk)
     return out
 
 
@@ -764,8 +820,21 @@ def b01(x):
 FIXED_SERIAL = '17000000004242'     # '%d%d' % (1700000000.9, 4242) with the patched clock / pid
 
 
-def eff_lines(rec):
+def eff_lines(rec, certdir=None):
     """canonical rendering of the recorded effects up to and including the result"""
+    if certdir is not None:
+        def sub(x):
+            return CERTDIR + x[len(certdir):] if isinstance(x, str) and x.startswith(certdir) else x
+        rec2 = []
+        for e in rec:
+            e = dict(e)
+            for k in ('path', 'cert'):
+                if k in e:
+                    e[k] = sub(e[k])
+            if 'argv' in e:
+                e['argv'] = [sub(a) for a in e['argv']]
+            rec2.append(e)
+        rec = rec2
     out = []
     k = 0
     res = None
@@ -842,36 +911,37 @@ def expected_client_wrap(case):
 
 
 def e2e_impl(case):
-    lines = []
+    segs = []
     for o in observe(case):
-        effs, res = eff_lines(o['rec'])
-        lines.append(' | '.join(effs + post_lines(res, o['post'])))
-    return lines
+        effs, res = eff_lines(o['rec'], o['certdir'])
+        segs.append(' | '.join(effs + post_lines(res, o['post'])))
+    return [' || '.join(segs)]
+
+
+CERTDIR = '/CERTDIR'      # canonical name of the per-run (initially empty, mkdtemp) --ca-cert-dir in the compared lines
+
+
+def openssl_outcomes(obs):
+    """environment input of the model: how each openssl invocation of the run ended, CONNECT by CONNECT
+    (rc 0 / rc != 0 / the code's own 10 s timeout expired — the latter happens on an overloaded box)"""
+    per = []
+    for o in obs:
+        per.append(''.join('t' if e['rc'] == 'timeout' else ('o' if e['rc'] else 'f')
+                           for e in o['rec'] if e['ev'] == 'openssl') or 'o')
+    return per
 
 
 def e2e_model_lines(case):
     p = pki()
-    lines = []
-    obs = observe(case)       # environment inputs that only exist at run time: the cache directory listing
-    for o in obs:
-        certdir = os.path.dirname(o['fs_before'][0]) if o['fs_before'] else _certdir_of(o)
-        inter = case['intercept']
-        subj = upstream_subject(case)
-        lines.append('tls orc %s %s %s %s %s %s %s %s %s %s %s %s %s %s %s 0' % (
-            hs(p.ca_key) if inter else 'None', hs(p.ca_cert) if inter else 'None',
-            hs(p.signing_key) if inter else 'None', hs(certdir), hs(p.ca_cert), b01(case['insecure']),
-            hs(case.get('openssl') or 'openssl'), ''.join(case['plugins']) or '-', hs(case['host']), case['sit'],
-            ','.join('%s=%s' % (hs(k), hs(v)) for k, v in subj) or '-',
-            hlist([x.encode() for x in o['fs_before']]),
-            'f' if case.get('openssl') == '/bin/false' else 'o', expected_client_wrap(case), hs(FIXED_SERIAL)))
-    return lines
-
-
-def _certdir_of(o):
-    for e in o['rec']:
-        if e['ev'] == 'isfile':
-            return os.path.dirname(e['path'])
-    return '/nonexistent'
+    inter = case['intercept']
+    subj = upstream_subject(case)
+    cmds = openssl_outcomes(observe(case))
+    return ['tls orc %s %s %s %s %s %s %s %s %s %s %s - %s %s %s 0 %d' % (
+        hs(p.ca_key) if inter else 'None', hs(p.ca_cert) if inter else 'None',
+        hs(p.signing_key) if inter else 'None', hs(CERTDIR), hs(p.ca_cert), b01(case['insecure']),
+        hs(case.get('openssl') or 'openssl'), ''.join(case['plugins']) or '-', hs(case['host']), case['sit'],
+        ','.join('%s=%s' % (hs(k), hs(v)) for k, v in subj) or '-',
+        '/'.join(cmds), expected_client_wrap(case), hs(FIXED_SERIAL), 1 + case.get('warm', 0))]
 
 
 # --------------------------------------------------------------------------
@@ -1027,7 +1097,7 @@ def layer_impl(case):
         flags.ca_key_file, flags.ca_cert_file = case['cakey'], case['cacert']
         flags.ca_signing_key_file, flags.ca_cert_dir = case['signkey'], case['dir']
         flags.openssl = case['openssl']
-        plugin = make_plugin(flags, L(case['host']))
+        plugin = make_plugin(flags, case['host'].encode())
         created = set(case['fs'])
 
         def isfile(p):
@@ -1098,3 +1168,441 @@ def impl(case):
 
 def model_lines(case):
     return e2e_model_lines(case) if case['kind'] == 'e2e' else layer_model_lines(case)
+
+
+# --------------------------------------------------------------------------
+# oracle: the property evaluated on the implementation only
+# --------------------------------------------------------------------------
+
+HOP_BY_HOP = (b'proxy-connection', b'proxy-authorization')
+
+
+def parse_request(raw):
+    head, _, body = raw.partition(b'\r\n\r\n')
+    lines = head.split(b'\r\n')
+    hdrs = []
+    for ln in lines[1:]:
+        k, _, v = ln.partition(b':')
+        hdrs.append((k.strip().lower(), v.strip()))
+    return lines[0], hdrs, body
+
+
+def same_request(sent, got):
+    """C02 semantics for a follow-up request: same request line, same header fields (hop-by-hop
+    proxy fields removed, a Via field naming the proxy allowed), same body"""
+    l1, h1, b1 = parse_request(sent)
+    l2, h2, b2 = parse_request(got)
+    h1 = sorted(h for h in h1 if h[0] not in HOP_BY_HOP)
+    h2 = sorted(h for h in h2 if h[0] != b'via')
+    if l1 != l2:
+        return 'request-line-differs'
+    if h1 != h2:
+        return 'headers-differ'
+    if b1 != b2:
+        return 'body-differs'
+    return None
+
+
+def origin_acceptable(case):
+    """would a client verifying against the configured trust store accept this origin for this host?"""
+    return case['sit'] == 'trusted'
+
+
+def names_host(cert, host):
+    """does the certificate carry a subjectAltName entry of the right kind for `host`?"""
+    bare = host[1:-1] if host.startswith('[') and host.endswith(']') else host
+    san = (cert or {}).get('subjectAltName', ())
+    if is_ip_literal(host):
+        import ipaddress
+        want = ipaddress.ip_address(bare)
+        for kind, val in san:
+            if kind == 'IP Address':
+                try:
+                    if ipaddress.ip_address(val) == want:
+                        return True
+                except ValueError:
+                    pass
+        return False
+    return ('DNS', bare.lower()) in [(k, v.lower()) for k, v in san]
+
+
+def in_quantifier(case):
+    return case['kind'] == 'e2e'
+
+
+def oracle(case):
+    if case['kind'] != 'e2e':
+        return None
+    obs = observe(case)
+    p = pki()
+    request = inner_request(case)
+    response = origin_response(case)
+    opted_out = 'F' in case['plugins']
+    undocumented = 'N' in case['plugins']        # an answer that is neither True nor False: not judged
+    mode = case.get('client', 'verify')
+    first_der = None
+    for n, o in enumerate(obs):
+        c, og = o['client'], o['origin']
+        if o['hung'] or o['ended'] == 'timeout':
+            return 'hang'
+        if og is None:
+            return 'no-upstream-connection'
+        origin_der = None if case['sit'] == 'garbage' else pem_to_der(p.leaf(case['sit'], case['host']))
+        wraps = [e for e in o['rec'] if e['ev'] in ('wrapUp', 'wrapClient')]
+        if not case['intercept'] or opted_out:
+            # opaque tunnel: no TLS termination, bytes verbatim both ways
+            if wraps or o['openssl_calls']:
+                return 'optout-not-opaque'
+            if mode != 'verify':
+                continue
+            if origin_acceptable(case) and not is_ip_literal(case['host']) or \
+                    (origin_acceptable(case) and is_ip_literal(case['host'])):
+                if c['handshake'] != 'ok':
+                    return 'opaque-tunnel-broken:' + str(c['handshake'])[:40]
+                if c['der'] != origin_der:
+                    return 'optout-client-does-not-see-origin-certificate'
+                if og['received'] != request:
+                    return 'opaque-tunnel-request-altered'
+                if c['response'] != response:
+                    return 'opaque-tunnel-response-altered'
+            elif c['response'] or (og['received'] and c['handshake'] != 'ok'):
+                return 'opaque-tunnel-inconsistent'
+            continue
+        if undocumented:
+            continue
+        bad = not origin_acceptable(case)
+        if (bad and not case['insecure']) or case['sit'] == 'garbage':
+            # never trusts a bad upstream: no application data in either direction
+            if og['received']:
+                return 'bad-upstream-received-application-data'
+            if c['response'] or c['plain']:
+                return 'client-received-data-from-bad-upstream'
+            if c['handshake'] == 'ok' and c['error'] is None and c['response']:
+                return 'client-served-despite-bad-upstream'
+            if o['ended'] not in ('teardown',) and not o['ended'].startswith('raised'):
+                return 'bad-upstream-connection-not-torn-down'
+            continue
+        if mode != 'verify':
+            continue
+        # good origin (or verification explicitly disabled): interception must work end to end
+        up = [e for e in o['rec'] if e['ev'] == 'wrapUp']
+        if up and up[0]['out'] == 'certVerification' and not bad and not case['insecure']:
+            if case['host'].startswith('['):
+                return 'trusted-ipv6-origin-refused-bracketed-server-hostname'
+            return 'trusted-origin-refused'
+        if case.get('openssl') or any(e['ev'] == 'openssl' and e['rc'] is not True for e in o['rec']):
+            break           # --openssl cannot mint / an invocation failed or hit the code's 10 s timeout: the
+            #                 environment's doing, nothing further to judge (cache state is then undefined too)
+        if o['leaf'] is None:
+            return 'no-leaf-generated'
+        if not names_host(o['leaf'], case['host']):
+            if is_ip_literal(case['host']) and any(k == 'DNS' for k, _ in o['leaf'].get('subjectAltName', ())):
+                return 'leaf-san-dns-entry-for-ip-literal'
+            return 'leaf-does-not-name-connect-host'
+        if c['handshake'] != 'ok':
+            return 'verifying-client-rejects-leaf:' + str(c['handshake'])[:60] + ('/' + c['error'] if c['error'] else '')
+        if not names_host(c['cert'], case['host']):
+            return 'presented-certificate-does-not-name-host'
+        if c['der'] == origin_der:
+            return 'tls-not-terminated'
+        r = same_request(request, og['received'])
+        if r:
+            return 'inner-request-' + r
+        if c['response'] != response:
+            return 'response-not-intact'
+        if n == 0 and o['openssl_calls'] != 3 and not o['fs_before']:
+            return 'cold-cache-unexpected-openssl-calls-%d' % o['openssl_calls']
+        if n > 0:
+            if o['openssl_calls'] != 0:
+                return 'warm-cache-minted-again'
+            if c['der'] != first_der:
+                return 'warm-cache-different-leaf'
+        if first_der is None:
+            first_der = c['der']
+    return None
+
+
+def classify(case, sig):
+    if case['kind'] != 'e2e' or not case['intercept']:
+        return None
+    if sig == 'leaf-san-dns-entry-for-ip-literal' and is_ip_literal(case['host']):
+        return 'D16'
+    if sig == 'trusted-ipv6-origin-refused-bracketed-server-hostname' and case['host'].startswith('[') \
+            and not case['insecure']:
+        return 'D16b'
+    return None
+
+
+def e2e(host='example.org', sit='trusted', insecure=0, plugins=(), intercept=1, warm=0, req=None, resp=10, cuts=(),
+        **extra):
+    bare = host[1:-1] if host.startswith('[') else host
+    req = req or {'m': 'GET', 'path': '/a?b=1', 'h': ['Host: %s' % bare, 'Proxy-Connection: keep-alive', 'X-A: 1']}
+    c = {'kind': 'e2e', 'host': host, 'port': 443, 'sit': sit, 'insecure': insecure, 'plugins': list(plugins),
+         'intercept': intercept, 'warm': warm, 'req': req, 'resp': resp, 'cuts': list(cuts)}
+    c.update(extra)
+    return c
+
+
+def finding_witnesses():
+    return {
+        'D16': e2e(host='127.0.0.1'),
+        'D16b': e2e(host='[::1]'),
+    }
+
+
+# --------------------------------------------------------------------------
+# cases
+# --------------------------------------------------------------------------
+
+RULE = ('e2e: one CONNECT (+ warm repeats) with REAL TLS on both sides through the real HttpProtocolHandler + '
+        'HttpProxyPlugin: origin certificate situation x insecure switch x do_intercept answers x host kind x client '
+        'behaviour x cache state x payload/segmentation, compared effect by effect with Intercept.onConnect; layer '
+        'cases (no crypto): pki argv/ext-file/config bytes, cache path, generate_upstream_certificate over cache '
+        'states and openssl outcomes, do_intercept chains (exhaustive to length 3/4), upstream context settings; '
+        'distinct by canonical JSON; non-trivial = e2e case')
+ASSUMPTIONS = [
+    'OpenSSL (library handshakes, X.509 path and name validation, record protection) and the openssl CLI are '
+    'trusted: their verdicts are parameters of the model (Env.handshake, Env.clientWrap, Env.cmd); the runs check '
+    'that the installed OpenSSL agrees with the reference verdict table for the situations exercised',
+    'a Python str is modelled by its UTF-8 bytes; request.host decodes as UTF-8 (else connect_upstream has already '
+    'answered 502)',
+    'the upstream connection exists, no connection pool; the client has an address; the peer presents a certificate',
+    'plugin.do_intercept answers are a function of the request (the same list at every evaluation of '
+    '_tls_intercept_enabled)',
+    'a successful openssl invocation creates its -out file and nothing else changes the cache directory during a '
+    'CONNECT (HttpProxyPlugin.lock)',
+    'after a failed upstream wrap the detached socket reports fileno() == -1, which Threadless never registers',
+    'decrypted follow-up requests take the on_client_data pipeline path whose parse/rebuild is the subject of '
+    'C02/C04; here only the routing decision (Relay kind http vs tunnel) is modelled and the oracle checks the '
+    'end-to-end bytes',
+]
+TRUSTED_EXTRA = [
+    'OpenSSL library (via CPython ssl) and the openssl CLI found on PATH; CPython ssl module glue '
+    '(create_default_context, wrap_socket detaching the plain socket)',
+    'harness TLS peers (threads on socketpairs) and the recorders patched around ssl contexts / '
+    'pki.run_openssl_command / os.path.isfile',
+]
+EXHAUSTIVE = {}
+EXPLANATION = ('theorems quantify over every configuration, answer list, host, cache state, OpenSSL verdict function '
+               'and (for the relay part) every tick list; runs tie the model to the code on a grid of real-TLS '
+               'scenarios and on exhaustive small scopes of the crypto-free layers')
+
+NAMES = ['example.org', 'a.b-c.example', 'xn--bcher-kva.example', 'UPPER.Example', 'h']
+ANSWER_SETS = [[], ['T'], ['F'], ['T', 'F'], ['F', 'T'], ['T', 'F', 'T'], ['T', 'T'], ['N'], ['T', 'N'], ['N', 'T'],
+               ['N', 'F']]
+
+
+def corpus():
+    cs = _corpus()
+    for c in cs:
+        if c['kind'] == 'e2e' and c['sit'] != 'garbage':
+            pki().leaf(c['sit'], c['host'])
+    return cs
+
+
+def _corpus():
+    pki()
+    cs = [
+        e2e(), e2e(warm=1), e2e(sit='selfsigned'), e2e(sit='untrusted'), e2e(sit='wrongname'), e2e(sit='expired'),
+        e2e(sit='selfsigned', insecure=1), e2e(sit='wrongname', insecure=1, warm=1),
+        e2e(plugins=['F']), e2e(plugins=['T', 'F', 'T'], sit='selfsigned'), e2e(plugins=['T', 'N']),
+        e2e(plugins=['N', 'T']), e2e(intercept=0), e2e(host='127.0.0.1'), e2e(host='[::1]'),
+        e2e(host='[::1]', insecure=1), e2e(host='127.0.0.1', sit='selfsigned'),
+        e2e(sit='garbage'), e2e(client='distrust'), e2e(client='gone'), e2e(client='hangup'),
+        e2e(openssl='/bin/false'), e2e(hosthdr='other.example:443'), e2e(hosthdr='other.example:443', plugins=['F']),
+        e2e(req={'m': 'POST', 'path': '/submit', 'h': ['Host: example.org', 'Proxy-Authorization: Basic eDp5',
+                                                      'Content-Type: text/plain'], 'b': 'x' * 3000},
+            resp=70000, cuts=[5, 40, 200]),
+    ]
+    cs += [
+        {'kind': 'ext', 'alt': None, 'eku': None}, {'kind': 'ext', 'alt': [], 'eku': 'serverAuth'},
+        {'kind': 'ext', 'alt': ['a.example', '127.0.0.1'], 'eku': None}, {'kind': 'cfg', 'alt': ['h'], 'eku': None},
+        {'kind': 'cfg', 'alt': None, 'eku': None}, {'kind': 'cfg', 'alt': [], 'eku': 'clientAuth'},
+        {'kind': 'path', 'dir': '/d', 'host': 'h'}, {'kind': 'path', 'dir': '/d/', 'host': 'h'},
+        {'kind': 'path', 'dir': '', 'host': 'h'}, {'kind': 'path', 'dir': '/d', 'host': '/abs'},
+        {'kind': 'path', 'dir': '/d', 'host': '../up'},
+        {'kind': 'gen', 'cakey': '/k', 'cacert': '/c', 'signkey': '/s', 'dir': '/d', 'openssl': 'openssl',
+         'host': 'h.example', 'subject': [['commonName', 'h'], ['organizationName', 'O']], 'fs': [], 'cmds': 'ooo'},
+        {'kind': 'gen', 'cakey': '', 'cacert': '/c', 'signkey': '/s', 'dir': '/d', 'openssl': 'openssl',
+         'host': 'h.example', 'subject': [], 'fs': [], 'cmds': 'ooo'},
+        {'kind': 'gen', 'cakey': '/k', 'cacert': '/c', 'signkey': '/s', 'dir': '/d', 'openssl': 'o',
+         'host': 'h', 'subject': [['commonName', 'a'], ['commonName', 'b'], ['emailAddress', 'e'], ['localityName', '']],
+         'fs': ['/d/h.pub'], 'cmds': 'ot'},
+    ]
+    return cs
+
+
+def _rand_name(rng):
+    labels = []
+    for _ in range(rng.choice([1, 2, 2, 3])):
+        labels.append(''.join(rng.choice('abcdefghijklmnopqrstuvwxyz0123456789-') for _ in range(rng.randrange(1, 9)))
+                      .strip('-') or 'x')
+    return '.'.join(labels)
+
+
+def _rand_str(rng, alphabet='abc/. =é中-_:,'):
+    return ''.join(rng.choice(alphabet) for _ in range(rng.randrange(0, 7)))
+
+
+def _rand_req(rng, host):
+    bare = host[1:-1] if host.startswith('[') else host
+    m = rng.choice(['GET', 'GET', 'POST', 'PUT', 'DELETE', 'HEAD'])
+    h = ['Host: %s' % bare]
+    for name in rng.sample(['X-A: 1', 'Accept: */*', 'Proxy-Connection: keep-alive', 'Proxy-Authorization: Basic eDp5',
+                            'User-Agent: c11', 'Cookie: a=b; c=d', 'x-lower: v'], rng.randrange(0, 4)):
+        h.append(name)
+    r = {'m': m, 'path': rng.choice(['/', '/a', '/a/b?c=d', '/%7Euser', '*' if m == 'OPTIONS' else '/x']), 'h': h}
+    if m in ('POST', 'PUT'):
+        r['b'] = ''.join(rng.choice('abcdefgh \n') for _ in range(rng.choice([1, 10, 500, 5000, 70000])))
+    return r
+
+
+def _rand_cuts(rng, n):
+    return sorted(rng.sample(range(1, max(2, n)), min(rng.choice([0, 0, 1, 2, 5]), max(0, n - 2))))
+
+
+def _layer_cases(rng, big):
+    strs = ['', 'a', 'h.example', '/x', '/x/', 'a b', 'é', 'k=v', '/tmp/px dir/f.pem']
+    alts = [None, [], [''], ['a'], ['a', 'b'], ['127.0.0.1'], ['[::1]'], ['a', '', 'c,d'], ['é.example']]
+    ekus = [None, '', 'serverAuth', 'serverAuth,clientAuth']
+    for alt in alts:
+        for eku in ekus:
+            yield {'kind': 'ext', 'alt': alt, 'eku': eku}
+            yield {'kind': 'cfg', 'alt': alt, 'eku': eku}
+    for _ in range(400 if big else 60):
+        alt = rng.choice(alts + [[_rand_str(rng) for _ in range(rng.randrange(1, 4))]])
+        k = rng.choice(['pub', 'csr', 'sign'])
+        c = {'kind': k, 'openssl': rng.choice(['openssl', '/usr/bin/openssl', _rand_str(rng)]),
+             'pw': rng.choice(['', 'proxy.py', _rand_str(rng)]), 'key': rng.choice(strs)}
+        if k == 'pub':
+            c.update(pub=rng.choice(strs), subject=rng.choice(['/CN=a', '', '/CN=a/O=b c']), alt=alt,
+                     eku=rng.choice(ekus), days=rng.choice([0, 1, 365, 730, 100000]))
+        elif k == 'csr':
+            c.update(csr=rng.choice(strs), crt=rng.choice(strs))
+        else:
+            c.update(csr=rng.choice(strs), crt=rng.choice(strs), cakey=rng.choice(strs), capw=rng.choice(['', 'pw']),
+                     cacrt=rng.choice(strs), serial=rng.choice(['1', '17000000004242', '']), alt=alt,
+                     eku=rng.choice(ekus), days=rng.choice([0, 1, 365, 730]))
+        yield c
+    dirs = ['', '/', '/d', '/d/', 'rel', 'rel/', '/a/b', '/a//', '//']
+    hosts = ['h', 'example.org', '127.0.0.1', '[::1]', '/abs', '../up', 'a/b', '', '.', 'é.example', 'h.pem']
+    for d in dirs:
+        for h in hosts:
+            yield {'kind': 'path', 'dir': d, 'host': h}
+    for hostname in (None, '', 'h.example', '[::1]'):
+        for cafile in (None, '/x'):
+            for vn in (None, 0, 1):
+                yield {'kind': 'swrap', 'hostname': hostname, 'cafile': cafile, 'vn': vn}
+    depth = 4 if big else 3
+    lists = [[]]
+    frontier = [[]]
+    for _ in range(depth):
+        frontier = [x + [a] for x in frontier for a in 'TFN']
+        lists += frontier
+    for en in (1, 0):
+        for answers in lists:
+            if en == 0 and len(answers) > 2:
+                continue
+            yield {'kind': 'chain', 'enabled': en, 'answers': answers}
+    longs = ['commonName', 'countryName', 'stateOrProvinceName', 'localityName', 'organizationName',
+             'organizationalUnitName', 'emailAddress', 'serialNumber']
+    for _ in range(3000 if big else 300):
+        d = rng.choice(['/d', '/d/', '', 'rel', '/tmp/x y'])
+        h = rng.choice(hosts[:6] + [_rand_name(rng), _rand_str(rng, 'ab./é') or 'h'])
+        if not h:
+            h = 'h'
+        from proxy.http.proxy.server import HttpProxyPlugin as _P    # path function of the code, to build cache states
+        import os as _os
+        base = [_os.path.join(d, '%s.%s' % (h, ext)) for ext in ('pub', 'csr', 'pem')]
+        fs = [p for p in base if rng.random() < 0.35]
+        subj = [[rng.choice(longs), rng.choice(['', 'v', 'Ex Co', 'a/b', 'é'])] for _ in range(rng.randrange(0, 5))]
+        flag = lambda v: rng.choice([v] * 12 + ['', None])      # noqa: E731
+        yield {'kind': 'gen', 'cakey': flag('/k'), 'cacert': flag('/c'), 'signkey': flag('/s'),
+               'dir': rng.choice([d] * 12 + ['']), 'openssl': rng.choice(['openssl', '/opt/o']), 'host': h,
+               'subject': subj, 'fs': fs, 'cmds': ''.join(rng.choice('oooooft') for _ in range(3))}
+
+
+def generate(rng, tier):
+    seen = set(json.dumps(c, sort_keys=True) for c in _corpus())
+    for c in _generate(rng, tier):
+        key = json.dumps(c, sort_keys=True)
+        if key in seen:
+            continue
+        seen.add(key)
+        if c['kind'] == 'e2e' and c['sit'] != 'garbage':
+            pki().leaf(c['sit'], c['host'])      # made here, once, before the engine forks its workers
+        yield c
+
+
+def _generate(rng, tier):
+    pki()
+    big = tier == 'thorough'
+    for c in _layer_cases(rng, big):
+        yield c
+    sits = list(SITUATIONS)
+    if not big:
+        for sit in sits:
+            for insecure in (0, 1):
+                yield e2e(host=rng.choice(NAMES), sit=sit, insecure=insecure, warm=rng.choice([0, 0, 1]))
+        for answers in (['F'], ['T', 'F'], ['T'], ['N', 'F'], ['T', 'T', 'N']):
+            yield e2e(host=rng.choice(NAMES), sit=rng.choice(sits), insecure=rng.randrange(2), plugins=answers)
+        yield e2e(intercept=0, sit='selfsigned')
+        yield e2e(sit='garbage', insecure=1)
+        yield e2e(host='127.0.0.1', insecure=1, sit='selfsigned')
+        yield e2e(host='10.1.2.3', sit='wrongname')
+        n = 10
+    else:
+        hosts = NAMES[:3] + ['127.0.0.1', '[::1]']
+        for sit in sits + ['garbage']:
+            for insecure in (0, 1):
+                for host in hosts:
+                    for answers in ([], ['T'], ['F'], ['T', 'F', 'T'], ['T', 'N'], ['N', 'T']):
+                        yield e2e(host=host, sit=sit, insecure=insecure, plugins=answers,
+                                  warm=1 if (not answers and sit in ('trusted', 'selfsigned', 'expired')) else 0)
+                for mode in ('distrust', 'gone', 'hangup'):
+                    yield e2e(host=rng.choice(NAMES), sit=sit, insecure=insecure, client=mode)
+                yield e2e(sit=sit, insecure=insecure, intercept=0, host=rng.choice(hosts))
+                yield e2e(sit=sit, insecure=insecure, openssl='/bin/false')
+                yield e2e(sit=sit, insecure=insecure, hosthdr='other.example:443', host=rng.choice(NAMES))
+        n = 250
+    for _ in range(n):
+        host = rng.choice(NAMES + [_rand_name(rng), _rand_name(rng)] + (['127.0.0.1', '[::1]', '192.0.2.7'] if big else []))
+        req = _rand_req(rng, host)
+        c = e2e(host=host, sit=rng.choice(sits + ['trusted'] * 4), insecure=int(rng.random() < 0.3),
+                plugins=rng.choice(ANSWER_SETS + [[]] * 6), warm=rng.choice([0, 0, 0, 1]), req=req,
+                resp=rng.choice([0, 1, 10, 1000, 16384, 70000, 200000]))
+        c['cuts'] = _rand_cuts(rng, len(inner_request(c)))
+        if rng.random() < 0.2:
+            c['hosthdr'] = rng.choice(['other.example:443', 'other.example', host])
+        yield c
+
+
+def neighbours(case):
+    if case['kind'] != 'e2e':
+        return
+    for sit in SITUATIONS:
+        for insecure in (0, 1):
+            yield dict(case, sit=sit, insecure=insecure)
+    for answers in ([], ['F'], ['T', 'F']):
+        yield dict(case, plugins=answers)
+    yield dict(case, hosthdr='other.example:443')
+    yield dict(case, warm=1)
+
+
+def search(rng):
+    return [c for c in generate(rng, 'quick') if c['kind'] == 'e2e']
+
+
+def describe(case):
+    if case['kind'] != 'e2e':
+        return [case['kind']]
+    host = 'ipv4' if is_ip_literal(case['host']) and not case['host'].startswith('[') else \
+        'ipv6' if case['host'].startswith('[') else 'name'
+    opt = 'off' if not case['intercept'] else 'optout' if 'F' in case['plugins'] else \
+        'N-answer' if 'N' in case['plugins'] else 'intercept'
+    return ['e2e sit=%s insecure=%d' % (case['sit'], case['insecure']), 'e2e host=' + host, 'e2e mode=' + opt,
+            'e2e warm=%d' % case.get('warm', 0), 'e2e client=' + case.get('client', 'verify')]
+
+
+def nontrivial(case):
+    return in_quantifier(case)
